@@ -69,6 +69,16 @@ check('C12', 'proof',
       'packets of every class) in both modes vs the extracted model, the survivors statement tested on the library alone, get_info error/raise.', WORLD_NOTE,
       'Coq proof over the play/step model + fault-placement differential run', 'DESIGN.md §6 C12')
 
+check('C04', 'proof',
+      'Coq theorems: entity ids are 1-based positions without wrap-around; the id order of methods and exposed properties is the stable sort by '
+      'wire size - a permutation, sorted, every tie class in collection order, and the UNIQUE list with these properties; the code\'s recursive '
+      'collection is proved equal to the fold of one-file absorption over the depth-first list of definition files (interfaces first, own last); '
+      'redefinition of a property takes the later position, the first definition of a method wins; smaller key => smaller id. Tie: generated '
+      'flag/mask/type tables proved equal to the model\'s, and the complete index maps (order, keys, resolved argument and property types, four '
+      'property lists, volatiles) of ALL bundled definition sets and of generated sets compared with the extracted model.',
+      'Trusted: Coq kernel, extraction + driver, harness; lxml parses the XML on both sides (same parser options); int() corner syntax of header sizes outside ASCII digits is not modelled.',
+      'Coq proof (stable-sort uniqueness, DFS refinement) + exhaustive comparison over all bundled sets + generated sets', 'DESIGN.md §6 C04')
+
 NOT_YET = {}
 ALL = ['C%02d' % i for i in range(1, 20)]
 def main():
